@@ -336,6 +336,12 @@ class World:
             return 'ctmp'
         return 'other'
 
+    def _real_file(self, path):
+        """Editors save through a symlink: the target is (re)written, the link stays."""
+        if path.endswith('/flink.py'):
+            return ROOT + '/src/real_target.py'
+        return path
+
     def cdir(self, i):
         return self.default_cdir if i < 0 else self.cdirs[i % len(self.cdirs)]
 
@@ -374,6 +380,8 @@ class World:
         for f in self.files:
             if '/link/' not in f:
                 self.fs.h_mkdirs(os.path.dirname(f))
+            if f.endswith('/flink.py'):
+                self.fs.h_symlink(f, ROOT + '/src/real_target.py')     # the source path itself is a symlink
         self._base_state = self._module_snapshot()
         self.procs = [Proc(self, i) for i in range(cfg.get('nproc', 1))]
         return self
@@ -1031,7 +1039,8 @@ class World:
                     mtime = math.floor(mtime / fs.gran + 1e-9) * fs.gran
             else:
                 mtime = None
-            n = fs.h_write(path, data, mtime=mtime, atomic=(op.get('how', 'atomic') == 'atomic' and k == 'edit'))
+            n = fs.h_write(self._real_file(path), data, mtime=mtime,
+                           atomic=(op.get('how', 'atomic') == 'atomic' and k == 'edit'))
             self._record_version(f, n.data, n.mtime)
         elif k == 'touch':
             f = op['f'] % len(self.files)
@@ -1042,7 +1051,7 @@ class World:
                 self._record_version(f, n.data, n.mtime)
         elif k == 'rmfile':
             f = op['f'] % len(self.files)
-            if fs.h_remove(self.files[f]):
+            if fs.h_remove(self._real_file(self.files[f])):
                 self._record_version(f, None, None)
         elif k == 'restart':
             proc = self.procs[op['proc'] % len(self.procs)]
@@ -1160,7 +1169,15 @@ class World:
         elif how == 'text':
             new = b'this is not a pickle\n' * (1 + op.get('a', 0) % 4)
         elif how == 'other-object':
-            objs = [[1, 2, 3], {'node': None}, 'a string', 42, None, ('node', 'lines'), pc._NodeCacheItem]
+            def shaped(**kw):
+                it = object.__new__(pc._NodeCacheItem)       # e.g. written by a parso with another item layout
+                it.__dict__.update(kw)
+                return it
+            objs = [[1, 2, 3], {'node': None}, 'a string', 42, None, ('node', 'lines'), pc._NodeCacheItem,
+                    shaped(), shaped(node='x', lines=[]), shaped(node='x', lines=[], change_time='now', last_used=0.0),
+                    shaped(node='x', lines=None, change_time=1e12, last_used=1e12),
+                    shaped(node='x', lines=[], change_time=1e12, last_used=None),
+                    shaped(node='x', lines=[], change_time=None, last_used=None)]
             new = pickle.dumps(objs[op.get('a', 0) % len(objs)], pickle.HIGHEST_PROTOCOL)
         elif how == 'splice':
             others = [x for x in files if x[1] is not n and x[1].data]
@@ -1394,7 +1411,7 @@ def execute(plan, generate=False):
             if init is None:
                 continue
             w.now += 1.0
-            n = w.fs.h_write(w.files[f], encode_text(init))
+            n = w.fs.h_write(w._real_file(w.files[f]), encode_text(init))
             w.versions.setdefault(f, []).append((n.data, n.mtime))
         w.now += plan['config'].get('warmup', 3.0)
         poison_check()
